@@ -183,6 +183,19 @@ def s_siblings(cx, rule, only=None):
             # parameter names are irrelevant
             for i in range(1, fn.arg_count + 1):
                 s = re.sub(r'\$%s\b' % re.escape(fn.local_name(i)), '$%d' % i, s)
+            # names of loop-carried locals are irrelevant, and so is how many temporaries hold the same value
+            # (a helper that was extracted and inlined again leaves one more): compare the SET of per-iteration values
+            ls_ = []
+            for l in s.split('\n'):
+                m_ = re.match(r"^loop ([\w.']+)' = (.*)$", l)
+                if m_:
+                    nm_ = m_.group(1)
+                    v_ = re.sub(r'\b%s@in\b' % re.escape(nm_), 'self@in', m_.group(2))
+                    l = 'loop = ' + v_
+                    if re.match(r'^(\$\w+|[\w.]+@in|\d+|0x[0-9a-f]+)$', v_):
+                        continue      # a plain copy (the parameter binding of an inlined helper) is not structure
+                ls_.append(l)
+            s = '\n'.join(sorted(set(ls_)))
             shapes.append((name, s))
         if len(shapes) < 2:
             continue
